@@ -181,7 +181,12 @@ func PreferredGoType(dt datatype.DataType) (reflect.Type, error) {
 		if err != nil {
 			return nil, err
 		}
-		return reflect.MapOf(ensureNillable(keyType), ensureNillable(valueType)), nil
+		keyType = ensureNillable(keyType)
+		if !keyType.Comparable() {
+			// e.g. blob, inet or collection keys, whose preferred Go types are slices: reflect.MapOf would panic
+			return nil, errCannotFindGoType(dt)
+		}
+		return reflect.MapOf(keyType, ensureNillable(valueType)), nil
 	}
 	return nil, errCannotFindGoType(dt)
 }
